@@ -100,6 +100,12 @@ async def scenario(loop, rnd, w, spec, stats):
         async def later(i=i, at=at, db=db, hold=hold, discard=discard):
             await asyncio.sleep(at); await client(i, w, pool, db, hold, discard, stats)
         tasks.append(loop.create_task(later()))
+    async def pruner(at, db):
+        await asyncio.sleep(at)
+        w.events.append('prune_inactive_connections(%s)' % db)
+        await pool.prune_inactive_connections(db)
+        w.check_bound('prune(%s)' % db)
+    ptasks = [loop.create_task(pruner(at, db)) for at, db in spec.get('prunes', [])]
     async def monitor():
         while True:
             await asyncio.sleep(0.0037)
@@ -114,6 +120,7 @@ async def scenario(loop, rnd, w, spec, stats):
     mon = loop.create_task(monitor())
     done, pending = await asyncio.wait(tasks, timeout=spec['horizon'])
     mon.cancel()
+    if ptasks: await asyncio.wait(ptasks, timeout=60.0)      # (never cancel a prune in flight: that would cancel its disconnects)
     if pending:
         blocked = [i for i, t in enumerate(tasks) if t in pending]
         w.fail('C16 liveness', '%d acquire request(s) never completed within %.0f virtual seconds although every holder released and connects can succeed: clients %s; blocks %s'
@@ -136,7 +143,8 @@ def gen_spec(rnd):
     for _ in range(ncl):
         at = 0.0 if burst and rnd.random() < 0.7 else rnd.choice([0.0, 0.001, 0.005, 0.012, 0.02, 0.05, 0.2])
         clients.append((at, rnd.choice(dbs), rnd.choice([0.0, 0.001, 0.004, 0.03, 0.1]), rnd.random() < 0.15))
-    return dict(maxcap=maxcap, clients=clients, slow=rnd.choice([[0.0], [0.001, 0.02], [0.02, 0.05], [0.0, 0.1]]),
+    prunes = [(rnd.choice([0.001, 0.006, 0.013, 0.03, 0.08]), rnd.choice(dbs)) for _ in range(rnd.choice([0, 0, 1, 2]))]
+    return dict(maxcap=maxcap, clients=clients, prunes=prunes, slow=rnd.choice([[0.0], [0.001, 0.02], [0.02, 0.05], [0.0, 0.1]]),
                 fail_rate=rnd.choice([0.0, 0.0, 0.0, 0.1, 0.3]), disc_fail_rate=rnd.choice([0.0, 0.0, 0.0, 0.2]), gc=rnd.choice([0.01, 1.0, 120.0]), horizon=600.0)
 
 def run_one(seed, spec=None):
@@ -158,6 +166,9 @@ def run_one(seed, spec=None):
 
 # fixed patterns known to be delicate (pending connects when the tick fires; more databases than connections; discards under pressure)
 def patterns():
+    # the pool is full, two databases queue with nothing coming, then one slot is freed without being handed over (prune) before a tick
+    yield dict(maxcap=2, clients=[(0.0, 'd', 0.5, False), (0.0, 'a', 0.0, False), (0.004, 'b', 0.01, False), (0.004, 'c', 0.01, False)], prunes=[(0.006, 'a')],
+               slow=[0.0], fail_rate=0.0, gc=120.0, horizon=600.0)
     yield dict(maxcap=4, clients=[(0.0, 'A', 0.05, False)] * 4 + [(0.001, 'B', 0.01, False)] * 2, slow=[0.05], fail_rate=0.0, gc=120.0, horizon=600.0)
     yield dict(maxcap=2, clients=[(0.0, 'db%d' % (i % 5), 0.01, False) for i in range(10)], slow=[0.001, 0.02], fail_rate=0.0, gc=120.0, horizon=600.0)
     yield dict(maxcap=2, clients=[(0.0, 'A', 0.02, True), (0.0, 'A', 0.02, True), (0.001, 'B', 0.0, False), (0.002, 'A', 0.0, False), (0.03, 'B', 0.0, True)], slow=[0.02], fail_rate=0.0, gc=120.0, horizon=600.0)
